@@ -255,6 +255,25 @@ theorem window_items_are_buffers (count : Nat) (s : Stream) :
     (Spec.bufferWithCount count (s.1, .complete)).1 = (windowChunks count s).map Data.ofList := by
   simp [Spec.bufferWithCount, windowChunks]
 
+/-- the chunks concatenate to the source's items: no item is lost, duplicated or moved to another window -/
+theorem chunks_flatten (count : Nat) (hn : 0 < count) : ∀ (fuel : Nat) (xs : List Data), xs.length + 1 ≤ fuel →
+    (Spec.chunks count fuel xs).flatten = xs := by
+  intro fuel
+  induction fuel with
+  | zero => intro xs h; omega
+  | succ fuel ih =>
+    intro xs hf
+    by_cases hx : xs = []
+    · subst hx; simp [Spec.chunks]
+    · rw [chunks_succ count fuel xs hx]
+      by_cases hlt : xs.length < count
+      · rw [if_pos hlt]; simp
+      · rw [if_neg hlt, List.flatten_cons, ih (xs.drop count) (by simp; omega), List.take_append_drop]
+
+/-- **window_partition.**  Reading the windows one after another gives back exactly the source's items, in order. -/
+theorem window_partition (count : Nat) (hn : 0 < count) (s : Stream) : (windowChunks count s).flatten = s.1 :=
+  chunks_flatten count hn _ _ (Nat.le_refl _)
+
 /-- non-vacuity: 1 2 3 then complete, windows of 2 -/
 example : winRun 2 ([.int 1, .int 2, .int 3], .complete)
     = [(0, .next (.obs 1)), (1, .next (.int 1)), (1, .next (.int 2)), (1, .complete),
@@ -495,6 +514,12 @@ theorem keysOf_complete (key : Fn) : ∀ (xs : List Data) (g : Groups) (x : Data
       exact List.mem_of_getElem? this
     · exact ih _ x h
 
+/-- **group_keys.**  Every key that occurs in the source has exactly one group: the announced key list has no
+    duplicates and contains the key of every item. -/
+theorem group_keys (key : Fn) (xs : List Data) :
+    (keysOf key xs).Nodup ∧ ∀ x ∈ xs, keyOf key x ∈ keysOf key xs :=
+  ⟨addKeys_nodup key xs [] List.nodup_nil, fun x hx => keysOf_complete key xs [] x hx⟩
+
 example : grpRun (.mod 2) ([.int 1, .int 2, .int 3], .error 5)
     = [(0, .next (.obs 1)), (1, .next (.int 1)), (0, .next (.obs 2)), (2, .next (.int 2)), (1, .next (.int 3)),
        (1, .error 5), (2, .error 5), (0, .error 5)] := by decide
@@ -509,3 +534,5 @@ end Rx.C02
 #print axioms Rx.C02.group_root
 #print axioms Rx.C02.group_inner
 #print axioms Rx.C02.keysOf_complete
+#print axioms Rx.C02.window_partition
+#print axioms Rx.C02.group_keys
